@@ -298,7 +298,14 @@ def rules(rep, m):
                   "that updates the key updates all of them - so what a call returns never depends on which parameters "
                   "earlier calls on the same thread used", floor=2)
     nmemo = 0
-    for f in sorted(api, key=lambda f_: f_.name):
+    # the samplers and the helpers of the random module that keep static cells of their own (a memo moved into a helper)
+    memo_funcs = {f_.key: f_ for f_ in api}
+    for g_ in m.globals.values():
+        if g_.local_to is not None and g_.local_to in m.funcs:
+            hf = m.funcs[g_.local_to]
+            if (m.rel(hf.file) or "").startswith(("src/cmb_random", "include/cmb_random")):
+                memo_funcs.setdefault(hf.key, hf)
+    for f in sorted(memo_funcs.values(), key=lambda f_: f_.name):
         fcx = FuncCtx(m, f)
         local_statics = {g.node["id"]: g.name for g in m.globals.values() if g.local_to == f.key and g.node is not None}
 
